@@ -16,9 +16,9 @@ cp SEED_REPORT.md $OUT/ 2>/dev/null
 DEMOPKGS=$(for d in $DEMO; do echo ./$(dirname $d); done | sort -u | tr '\n' ' ')
 echo "== build with change"; go build ./... && echo BUILD-OK
 echo "== demo with change (expect FAIL)"; go test -vet=off -count=1 -run 'Seed|seed|Demo|demo|Zz|ZZ' $DEMOPKGS 2>&1 | tail -5
-go test -vet=off -count=1 $DEMOPKGS > /tmp/seedc_with.log 2>&1; W=$?
+go test -vet=off -count=1 $DEMOPKGS > /tmp/seedc_with_$NAME.log 2>&1; W=$?
 git apply -R $OUT/patch.diff || { echo "cannot revert"; exit 2; }
-echo "== demo without change (expect PASS)"; go test -vet=off -count=1 $DEMOPKGS > /tmp/seedc_without.log 2>&1; WO=$?; tail -3 /tmp/seedc_without.log
+echo "== demo without change (expect PASS)"; go test -vet=off -count=1 $DEMOPKGS > /tmp/seedc_without_$NAME.log 2>&1; WO=$?; tail -3 /tmp/seedc_without_$NAME.log
 git apply $OUT/patch.diff
 git checkout -q go.mod go.sum 2>/dev/null
 echo "demo exit with change=$W without change=$WO"
